@@ -808,6 +808,11 @@ func hostC18(o *out, replay string) {
 	}
 	o.note("sessions=%d (one host process each; %d with the plugin shut down through ClientProtocol.Close and exited before Kill) configs: %s",
 		len(cases), preClose, strings.Join(ks, " "))
+	// two custom-runner clients configured with the same UnixSocketConfig value
+	for _, proto := range []string{"netrpc", "grpc"} {
+		impl, pred := runSharedUSC(proto)
+		o.emit("!C18.shared-usc proto="+proto, impl, pred)
+	}
 	o.note("ops: dispense+Double=%d callback(both directions)=%d emit=%d ping=%d; sessions whose plugin needed SIGKILL (outside the premise)=%d; wall=%.0fs",
 		opCount["d"], opCount["c"], opCount["e"], opCount["p"], forced, time.Since(t0).Seconds())
 }
